@@ -1,6 +1,7 @@
 package main
 
 import (
+	"go/constant"
 	"go/token"
 	"go/types"
 	"strings"
@@ -584,6 +585,36 @@ func c01Hierarchy(w *World, r *Report, la *LockAn) {
 			r.Check(ok, "R9", c.fn+"/fields", posOf(alt.Ret), "fixedWindow{max: %s, window: %s, groupByKey: %s}", Path(mx), trunc(Path(wn), 80), trunc(Path(gb), 80))
 		}
 	}
+	// R9 the configured interval/unit pair becomes the window length: every unit branch of
+	// ParseWindow returns Interval x (length of that unit), evaluated from the expression
+	if pw := w.Fn(pkgQuota, "QuotaLimit.ParseWindow"); pw == nil {
+		r.Undec("R9", "ParseWindow", token.NoPos, "function not found")
+	} else {
+		unitNs := map[string]int64{"second": 1e9, "minute": 60e9, "hour": 3600e9, "day": 24 * 3600e9, "month": 30 * 24 * 3600e9}
+		seen := map[string]bool{}
+		for _, alt := range ReturnAlts(pw, 0) {
+			unit := ""
+			for _, c := range alt.Conds {
+				if rel, ok := NormCond(c); ok && rel.Op == "==" {
+					for _, side := range [][2]ssa.Value{{rel.L, rel.R}, {rel.R, rel.L}} {
+						if s, isS := constString(side[1]); isS && strings.Contains(Path(side[0]), "GetIntervalType(") {
+							unit = s
+						}
+					}
+				}
+			}
+			nIv, factor, okShape := productOf(alt.Val, func(v ssa.Value) bool { return Path(v) == "param:ql.Interval" })
+			want, known := unitNs[unit]
+			seen[unit] = true
+			r.Check(known && okShape && nIv == 1 && factor == want, "R9", "ParseWindow/"+unit, posOf(alt.Ret),
+				"unit %q: window = Interval^%d x %d ns (want Interval x %d ns)", unit, nIv, factor, want)
+		}
+		for u := range unitNs {
+			if !seen[u] {
+				r.Undec("R9", "ParseWindow/"+u, pw.Pos(), "no return for unit %q", u)
+			}
+		}
+	}
 	// R10 hierarchy construction
 	if in := w.Fn(pkgQuota, "quotaResource.init"); in == nil {
 		r.Undec("R10", "quotaResource.init", token.NoPos, "function not found")
@@ -657,4 +688,26 @@ func errReturned(fn *ssa.Function, c ssa.CallInstruction) bool {
 		}
 	}
 	return false
+}
+
+// productOf evaluates v as a product of integer constants and leaves
+// satisfying isVar: returns the number of variable leaves, the constant factor,
+// and whether v has that shape.
+func productOf(v ssa.Value, isVar VP) (int, int64, bool) {
+	v = peel(v)
+	if isVar(v) {
+		return 1, 1, true
+	}
+	if c, ok := v.(*ssa.Const); ok && c.Value != nil {
+		if n, exact := constant.Int64Val(constant.ToInt(c.Value)); exact {
+			return 0, n, true
+		}
+		return 0, 0, false
+	}
+	if b, ok := v.(*ssa.BinOp); ok && b.Op == token.MUL {
+		n1, f1, ok1 := productOf(b.X, isVar)
+		n2, f2, ok2 := productOf(b.Y, isVar)
+		return n1 + n2, f1 * f2, ok1 && ok2
+	}
+	return 0, 0, false
 }
